@@ -51,6 +51,7 @@ WellFormed(s) ==
     /\ (s.k > 0 => s.slack > 0 /\ s.d # Far /\ s.d # -Far)
     /\ (s.focus \in {"issueLow", "issueHigh"} => s.d # -Far)
     /\ (s.conf2 # "none" => s.focus \in {"sNOOA", "sNB", "sOrder"} /\ s.k = 0 /\ s.spelling = "Z")
+    /\ (s.spelling \in {"offPlus", "offMinus"} => s.k = 0 /\ s.slack \in {0, 60})
 
 VARIABLES scn, pc, verdict, nooa
 vars == <<scn, pc, verdict, nooa>>
@@ -68,8 +69,13 @@ TooEarly(b) == P(b) /\ V(b) > scn.slack
 
 \* issue_instant_ok compares time tuples: datetime.timetuple() carries tm_isdst = -1, gmtime 0, so an
 \* instant equal to the lower edge passes and one equal to the upper edge does not
+\* spellings with a numeric time-zone offset ("offPlus": +02:00, "offMinus": -05:00) denote the same instants; SAML
+\* demands the UTC form, the library's schema validation refuses everything else (valid_date_time), so such a response
+\* never gets as far as the time checks -- and must never be accepted outside a window either
+Offsets == {"offPlus", "offMinus"}
 IssueInstant == /\ pc = "issue"
-                /\ IF Issue(scn) < 0 - Day - scn.slack \/ Issue(scn) >= Day + scn.slack THEN Reject ELSE Goto("authn")
+                /\ IF scn.spelling \in Offsets THEN Reject
+                   ELSE IF Issue(scn) < 0 - Day - scn.slack \/ Issue(scn) >= Day + scn.slack THEN Reject ELSE Goto("authn")
 AuthnStmt    == pc = "authn" /\ IF TooOld("sess") THEN Reject ELSE Goto("conditions")
 Conditions   == /\ pc = "conditions"
                 /\ IF \/ (P("cNB") /\ P("cNOOA") /\ V("cNOOA") < V("cNB"))
@@ -100,6 +106,7 @@ MustReject ==
     \/ Issue(scn) > Day + scn.slack \/ Issue(scn) < 0 - Day - scn.slack
 \* profile-conformant shape, every present bound satisfied with more than the allowance to spare
 MustAccept ==
+    /\ scn.spelling \notin Offsets                 \* not the UTC form: not profile-conformant
     /\ "sNOOA" \in scn.present /\ "sNB" \notin scn.present
     /\ \A b \in NooaBounds : P(b) => V(b) > scn.slack
     /\ \A b \in NbBounds : P(b) => V(b) < 0 - scn.slack
